@@ -64,11 +64,21 @@ func TestProp_ConcurrentHandshakes(t *testing.T) {
 		spare := rapid.IntRange(0, 8).Draw(t, "spareCapacity")
 		pool := []nodeenrollment.Option{nodeenrollment.WithLogger(hclog.NewNullLogger()), nodeenrollment.WithRandomReader(rand.Reader), nodeenrollment.WithNotBeforeClockSkew(nodeenrollment.DefaultNotBeforeClockSkewDuration), nodeenrollment.WithNotAfterClockSkew(nodeenrollment.DefaultNotAfterClockSkewDuration)}
 		base := w.O() // storage wrapper, when there is one, must always be present
-		opts := make([]nodeenrollment.Option, 0, len(base)+nOpt+spare)
-		opts = append(opts, base...)
+		items := append([]nodeenrollment.Option(nil), base...)
 		for i := 0; i < nOpt; i++ {
-			opts = append(opts, pool[i%len(pool)])
+			items = append(items, pool[i%len(pool)])
 		}
+		// the application may configure a default state for nodes enrolled through
+		// the listener; the struct stays the application's own
+		var appState, appStateCopy *structpb.Struct
+		if rapid.Bool().Draw(t, "listenerHasStateOption") {
+			appState, _ = structpb.NewStruct(map[string]any{"marker": "application-default", "pool": "default"})
+			appStateCopy = proto.Clone(appState).(*structpb.Struct)
+			pos := rapid.IntRange(len(base), len(items)).Draw(t, "stateOptionPosition")
+			items = append(items[:pos], append([]nodeenrollment.Option{nodeenrollment.WithState(appState)}, items[pos:]...)...)
+		}
+		opts := make([]nodeenrollment.Option, 0, len(items)+spare)
+		opts = append(opts, items...)
 		acceptors := rapid.IntRange(2, 8).Draw(t, "acceptors")
 		rig := vkit.NewRig(w, vkit.RigConfig{Options: opts, Acceptors: acceptors})
 		defer rig.Close()
@@ -87,13 +97,25 @@ func TestProp_ConcurrentHandshakes(t *testing.T) {
 				switch c.kind {
 				case "auth", "forged-nonce", "foreign-cert", "malformed-chunks":
 					c.a = vkit.NewActor(fmt.Sprint("a", c.id))
-					if err := w.Enroll(c.a); err != nil {
+					var eo []nodeenrollment.Option
+					if rapid.Bool().Draw(t, "nodeRecordHasState") {
+						eo = append(eo, nodeenrollment.WithState(vkit.UniqueStruct(fmt.Sprintf("record-state-%d", c.id))))
+					}
+					if err := w.Enroll(c.a, eo...); err != nil {
 						t.Fatalf("enroll: %v", err)
 					}
 				case "token":
-					c.tstate = vkit.UniqueStruct(fmt.Sprintf("token-state-%d", c.id))
+					var to []nodeenrollment.Option
+					if rapid.IntRange(0, 2).Draw(t, "tokenHasState") > 0 {
+						c.tstate = vkit.UniqueStruct(fmt.Sprintf("token-state-%d", c.id))
+						to = append(to, nodeenrollment.WithState(c.tstate))
+					} else {
+						// a token without state: the node gets the listener's configured default, or none
+						c.tstate = appStateCopy
+						kinds["token-without-state"]++
+					}
 					var err error
-					_, c.token, err = registration.CreateServerLedActivationToken(w.Ctx, w.Store, &types.ServerLedRegistrationRequest{}, w.O(nodeenrollment.WithState(c.tstate))...)
+					_, c.token, err = registration.CreateServerLedActivationToken(w.Ctx, w.Store, &types.ServerLedRegistrationRequest{}, w.O(to...)...)
 					if err != nil {
 						t.Fatalf("token: %v", err)
 					}
@@ -158,7 +180,7 @@ func TestProp_ConcurrentHandshakes(t *testing.T) {
 				kl = append(kl, fmt.Sprintf("%s=%d", k, v))
 			}
 			sort.Strings(kl)
-			desc := map[string]any{"option_slice": fmt.Sprintf("len=%d cap=%d", len(opts), cap(opts)), "acceptors": acceptors, "wave": kl, "storage_wrapper": wrapper}
+			desc := map[string]any{"option_slice": fmt.Sprintf("len=%d cap=%d", len(opts), cap(opts)), "listener_state_option": appState != nil, "acceptors": acceptors, "wave": kl, "storage_wrapper": wrapper}
 			rec.Case(fmt.Sprintf("wave/spare=%v/kinds=%d", spare > 0, len(kinds)), fmt.Sprint(desc), spare >= 1 && acceptors >= 2 && len(kinds) >= 2, func() any { return desc })
 			rec.Count("handshakes", int64(len(outs)))
 			byID := map[int]*client{}
@@ -220,6 +242,9 @@ func TestProp_ConcurrentHandshakes(t *testing.T) {
 					defer c.conn.Close()
 				}
 			}
+			if appState != nil && !proto.Equal(appState, appStateCopy) {
+				fail("application-option-value-modified", "the state value the application configured the listener with was modified during the wave: now %v", appState.AsMap())
+			}
 			// storage: existing records unchanged, token enrolments carry their own token's state
 			after := w.Rec.Snapshot()
 			for k, v := range before {
@@ -250,8 +275,8 @@ func TestProp_ConcurrentHandshakes(t *testing.T) {
 					fail("new-record-unreadable", "%v", err)
 					continue
 				}
-				if !proto.Equal(ni.State, c.tstate) {
-					fail("token-state-crossed", "node enrolled with token of client %d carries state %q instead of its own token's state", c.id, markerOf(ni.State))
+				if !(proto.Equal(ni.State, c.tstate) || (c.tstate == nil && len(ni.State.GetFields()) == 0)) {
+					fail("token-state-crossed", "node enrolled with token of client %d carries state %q instead of its own token's state (or, for a token without state, the listener's configured default)", c.id, markerOf(ni.State))
 				}
 				if !bytesEq(ni.CertificatePublicKeyPkix, c.a.CertPkix) || !bytesEq(ni.EncryptionPublicKeyBytes, c.a.EncPub) {
 					fail("token-record-keys", "node record of client %d does not carry that node's keys", c.id)
